@@ -22,6 +22,7 @@ macro_rules! dispatch {
             "C02" => $f(props::c02::C02, $($arg),*),
             "C03" => $f(props::c03::C03, $($arg),*),
             "C04" => $f(props::c04::C04, $($arg),*),
+            "C07" => $f(props::c07::C07, $($arg),*),
             _ => { eprintln!("unknown property {}", $id); 2 }
         }
     };
